@@ -65,25 +65,38 @@ Proof.
   unfold s_del in Hx. apply filter_In in Hx as [_ Hx]. apply negb_true_iff, Nat.eqb_neq in Hx. exact (Hx E).
 Qed.
 
-(* pop/peek only ever return a live task; a popped or removed task is no longer live *)
+(* pop/peek only ever return a live task (or, on an empty queue, the caller's own
+   default); pop removes what it returns *)
 Theorem pop_returns_live s d s' t :
-  spec_step s (Pop d) = (s', OTask t) -> s_mem s t = true /\ s_mem s' t = false.
+  spec_step s (Pop d) = (s', OTask t) ->
+  (s_mem s t = true /\ s_mem s' t = false /\ s' = s_del s t) \/ (s = [] /\ s' = [] /\ d = Some (DTask t)).
 Proof.
   simpl. destruct (best s) as [[t0 p0]|] eqn:B.
-  - intros [= <- <-]. split; [|apply s_del_not_mem].
+  - intros [= <- <-]. left. split; [|split; [apply s_del_not_mem|reflexivity]].
     apply s_mem_In. destruct s as [|c r]; [discriminate|]. simpl in B. inversion B as [E].
     pose proof (best_from_In r c) as H. rewrite E in H. apply (in_map fst) in H. exact H.
-  - destruct d; intros [= _ E]; discriminate.
+  - apply best_none_iff_empty in B. subst s. destruct d as [[t0|v0]|]; intros [= <- E]; try discriminate.
+    right. inversion E. auto.
 Qed.
 
 Theorem peek_returns_live s d s' t :
-  spec_step s (Peek d) = (s', OTask t) -> s' = s /\ s_mem s t = true.
+  spec_step s (Peek d) = (s', OTask t) ->
+  s' = s /\ (s_mem s t = true \/ (s = [] /\ d = Some (DTask t))).
 Proof.
   simpl. destruct (best s) as [[t0 p0]|] eqn:B.
-  - intros [= <- <-]. split; [reflexivity|].
+  - intros [= <- <-]. split; [reflexivity|]. left.
     apply s_mem_In. destruct s as [|c r]; [discriminate|]. simpl in B. inversion B as [E].
     pose proof (best_from_In r c) as H. rewrite E in H. apply (in_map fst) in H. exact H.
-  - destruct d; intros [= _ E]; discriminate.
+  - apply best_none_iff_empty in B. subst s. destruct d as [[t0|v0]|]; intros [= <- E]; try discriminate.
+    split; [reflexivity|]. right. inversion E. auto.
+Qed.
+
+(* a pop that returns the default leaves the queue as it was: empty *)
+Theorem pop_default_only_when_empty s d s' v :
+  spec_step s (Pop d) = (s', ODefault v) -> s = [] /\ s' = [].
+Proof.
+  simpl. destruct (best s) as [[t0 p0]|] eqn:B; [intros [= _ E]; discriminate|].
+  apply best_none_iff_empty in B. subst s. destruct d as [[t0|v0]|]; intros [= <- E]; auto.
 Qed.
 
 Theorem remove_makes_dead s t s' o : spec_step s (Remove t) = (s', o) -> s_mem s' t = false.
